@@ -5438,3 +5438,262 @@ Qed.
 Theorem Inv_run_clean_bindfree mh os s :
   (0 < mh)%nat -> forallb op_nobind os = true -> run_clean (init mh) os = Some s -> Inv s /\ binds s = ∅.
 Proof. intros Hmh. apply Inv_run_clean_bindfree_from; [apply Inv_init, Hmh|reflexivity]. Qed.
+
+From incr Require Import EngineRun.
+Local Open Scope Z_scope.
+(** * Property-level statements (C06, C10, C05) from the invariant *)
+
+(** ** C06 *)
+Lemma reachable_registered s n : Inv s -> reachable s n -> inGraph (nd s n) = true.
+Proof.
+  intros HI H. induction H as [o n Ho|n p _ IH Hp].
+  - rewrite (inv_nec s HI n). apply isNecessary_true. right; right.
+    apply (ob_iff s (inv_obs s HI)) in Ho. intros E. rewrite E in Ho. inversion Ho.
+  - rewrite <- (inv_par s HI n IH) in Hp.
+    apply (parent_registered s n p (inv_edges s HI) (inv_zero s HI) Hp).
+Qed.
+
+Lemma registered_reachable s n : Inv s -> inGraph (nd s n) = true -> reachable s n.
+Proof.
+  intros HI. remember (Z.to_nat (maxHeight s - height (nd s n))) as k eqn:Ek.
+  revert n Ek. induction (lt_wf k) as [k _ IH]. intros n Ek Hg.
+  pose proof Hg as Hn. rewrite (inv_nec s HI n) in Hn. apply isNecessary_true in Hn as [Hn|[Hn|Hn]].
+  - rewrite (q_force s (inv_quiet s HI)) in Hn. discriminate.
+  - destruct (children (nd s n)) as [|c l] eqn:Ec; [congruence|].
+    assert (Hc : c ∈ children (nd s n)) by (rewrite Ec; left).
+    pose proof (child_registered s c n (inv_edges s HI) (inv_zero s HI) Hc) as Hgc.
+    apply (edges_parent_child s c n (inv_edges s HI)) in Hc.
+    destruct (inv_height s HI c Hgc) as (Hc1 & Hc2 & _). specialize (Hc2 n Hc).
+    destruct (inv_height s HI n Hg) as (Hn1 & _).
+    apply (reach_decl s c n); [|rewrite <- (inv_par s HI c Hgc); exact Hc].
+    apply (IH (Z.to_nat (maxHeight s - height (nd s c)))); [subst k; lia|reflexivity|exact Hgc].
+  - destruct (observers (nd s n)) as [|o l] eqn:Eo; [congruence|].
+    apply (reach_obs s o n). apply (ob_iff s (inv_obs s HI)). rewrite Eo. left.
+Qed.
+
+Theorem registered_iff_reachable s n : Inv s -> (inGraph (nd s n) = true <-> reachable s n).
+Proof. intros HI. split; [apply registered_reachable, HI|apply reachable_registered, HI]. Qed.
+
+Theorem drain s : Inv s -> obs s = ∅ ->
+  reg s = [] /\ Heap.ids (heap s) = [] /\ numNodes s = 0 /\
+  forall n, parents (nd s n) = [] /\ children (nd s n) = [].
+Proof.
+  intros HI Ho.
+  assert (Hnone : forall n, inGraph (nd s n) = false).
+  { intros n. destruct (inGraph (nd s n)) eqn:E; [|reflexivity].
+    apply (registered_reachable s n HI) in E. exfalso. clear -E Ho.
+    induction E as [o n H|n p _ IH _]; [rewrite Ho, lookup_empty in H; discriminate|exact IH]. }
+  destruct (inv_count s HI) as [C1 C2 C3].
+  assert (Hreg : reg s = []).
+  { destruct (reg s) as [|x l] eqn:E; [reflexivity|].
+    assert (Hx : inGraph (nd s x) = true) by (apply C2; left). rewrite Hnone in Hx. discriminate. }
+  split; [exact Hreg|]. split.
+  - destruct (Heap.ids (heap s)) as [|x l] eqn:E; [reflexivity|].
+    destruct (inv_heap s HI) as [_ Hq]. destruct (Hq x ltac:(rewrite E; left)) as [Hx _].
+    rewrite Hnone in Hx. discriminate.
+  - split; [rewrite C3, Hreg, Ho; reflexivity|].
+    intros n. destruct (inv_zero s HI n (Hnone n)) as (? & ? & _). auto.
+Qed.
+
+Lemma reachable_ext s1 s2 : obs s1 = obs s2 -> (forall n, decl (nd s1 n) = decl (nd s2 n)) ->
+  forall n, reachable s1 n -> reachable s2 n.
+Proof.
+  intros Ho Hd n H. induction H as [o n H|n p _ IH Hp].
+  - apply (reach_obs s2 o n). rewrite <- Ho. exact H.
+  - apply (reach_decl s2 n p IH). rewrite <- Hd. exact Hp.
+Qed.
+
+Theorem shape_only s1 s2 : Inv s1 -> Inv s2 -> obs s1 = obs s2 ->
+  (forall n, decl (nd s1 n) = decl (nd s2 n)) ->
+  forall n, inGraph (nd s1 n) = inGraph (nd s2 n).
+Proof.
+  intros H1 H2 Ho Hd n.
+  destruct (inGraph (nd s1 n)) eqn:E1, (inGraph (nd s2 n)) eqn:E2; try reflexivity.
+  - apply (registered_iff_reachable s1 n H1), (reachable_ext s1 s2 Ho Hd), (registered_iff_reachable s2 n H2) in E1. congruence.
+  - apply (registered_iff_reachable s2 n H2), (reachable_ext s2 s1) in E2; [|auto|auto].
+    apply (registered_iff_reachable s1 n H1) in E2. congruence.
+Qed.
+
+(** ** C10 *)
+Fixpoint expect_after (n : nid) (b : bool) (l : list event) : bool :=
+  match l with
+  | [] => b
+  | EvNec m :: l' => expect_after n (if decide (m = n) then false else b) l'
+  | EvUnnec m :: l' => expect_after n (if decide (m = n) then true else b) l'
+  | _ :: l' => expect_after n b l'
+  end.
+
+Lemma alternates_snoc n e : forall l b,
+  alternates n b (l ++ [e]) <->
+  alternates n b l /\
+  match e with
+  | EvNec m => m = n -> expect_after n b l = true
+  | EvUnnec m => m = n -> expect_after n b l = false
+  | _ => True
+  end.
+Proof.
+  induction l as [|x l IH]; intros b.
+  - simpl. destruct e; simpl; try tauto; destruct (decide (n0 = n)); tauto.
+  - simpl. destruct x; simpl; try apply IH; destruct (decide (n0 = n)); rewrite ?IH; tauto.
+Qed.
+
+Lemma expect_after_snoc n e l b :
+  expect_after n b (l ++ [e]) =
+  match e with
+  | EvNec m => if decide (m = n) then false else expect_after n b l
+  | EvUnnec m => if decide (m = n) then true else expect_after n b l
+  | _ => expect_after n b l
+  end.
+Proof.
+  revert b. induction l as [|x l IH]; intros b; [destruct e; reflexivity|].
+  simpl. destruct x; simpl; apply IH.
+Qed.
+
+Lemma expect_after_lastNU n l :
+  expect_after n true (rev l) = match lastNU l n with Some true => false | _ => true end.
+Proof.
+  induction l as [|e l IH]; [reflexivity|]. simpl. rewrite expect_after_snoc.
+  destruct e; simpl; try exact IH; destruct (decide (n0 = n)); auto.
+Qed.
+
+Theorem log_alternates l n : log_ok l -> alternates n true (rev l).
+Proof.
+  induction l as [|e l IH]; [intros _; exact I|]. intros [He Hl]. simpl. apply alternates_snoc.
+  split; [apply IH, Hl|]. destruct e; try exact I; intros ->; rewrite expect_after_lastNU; simpl in He.
+  - destruct (lastNU l n) as [[|]|]; congruence.
+  - rewrite He. reflexivity.
+Qed.
+
+Theorem alternation s n : Inv s -> alternates n true (rev (log s)).
+Proof. intros HI. apply log_alternates, (lf_log s (inv_life s HI)). Qed.
+
+Lemma log_ok_suffix l1 l2 : log_ok (l1 ++ l2) -> log_ok l2.
+Proof. induction l1 as [|e l1 IH]; [auto|]. intros [_ H]. apply IH, H. Qed.
+
+(* the function of [n] runs only while the last necessity event of [n] is [EvNec n]
+   ([l_before]: the events logged before [e], most recent first) *)
+Theorem runs_only_while_necessary s l_after e l_before n : Inv s ->
+  log s = l_after ++ e :: l_before -> ev_runs e = Some n -> lastNU l_before n = Some true.
+Proof.
+  intros HI El He. pose proof (lf_log s (inv_life s HI)) as H. rewrite El in H.
+  apply log_ok_suffix in H. destruct H as [H _]. destruct e; try discriminate; injection He as ->; exact H.
+Qed.
+
+Theorem registered_iff_last_necessary s n : Inv s -> (inGraph (nd s n) = true <-> lastNU (log s) n = Some true).
+Proof. intros HI. apply (lf_reg s (inv_life s HI)). Qed.
+
+Lemma log_inval_once l n : log_ok l -> (length (filter (fun e => e = EvInval n) l) <= 1)%nat.
+Proof.
+  induction l as [|e l IH]; [simpl; lia|]. intros [He Hl]. rewrite filter_cons.
+  destruct (decide (e = EvInval n)) as [->|Hne]; [|apply IH, Hl].
+  simpl in He. simpl.
+  assert (filter (fun e => e = EvInval n) l = []) as ->; [|simpl; lia].
+  destruct (filter (fun e => e = EvInval n) l) as [|x l'] eqn:E; [reflexivity|].
+  assert (Hx : x ∈ filter (fun e => e = EvInval n) l) by (rewrite E; left).
+  apply elem_of_list_filter in Hx as [-> Hx]. contradiction.
+Qed.
+
+Theorem invalidated_once s n : Inv s -> (length (filter (fun e => e = EvInval n) (log s)) <= 1)%nat.
+Proof. intros HI. apply log_inval_once, (lf_log s (inv_life s HI)). Qed.
+
+(* and an invalidated node is invalid for good *)
+Theorem invalidated_iff_invalid s n : Inv s -> (EvInval n ∈ log s <-> valid (nd s n) = false).
+Proof. intros HI. symmetry. apply (lf_inval s (inv_life s HI)). Qed.
+
+(** ** C05: what the boolean [wfb] says *)
+Theorem Inv_meaning s : Inv s ->
+  (forall c p, count_occ_n p (parents (nd s c)) = count_occ_n c (children (nd s p))) /\
+  (forall c p, inGraph (nd s c) = true -> p ∈ parents (nd s c) -> height (nd s p) < height (nd s c)) /\
+  numNodes s = Z.of_nat (length (filter (fun n => inGraph (nd s n) = true) (allNodes s))) + Z.of_nat (size (obs s)) /\
+  (forall n, n ∈ Heap.ids (heap s) -> inGraph (nd s n) = true /\ Heap.hinOf (heap s) n = height (nd s n)) /\
+  HeapSpec.inv (heap s).
+Proof.
+  intros HI. split; [apply (inv_edges s HI)|]. split; [|split; [|split]].
+  - intros c p Hc Hp. apply (inv_height s HI c Hc), Hp.
+  - pose proof (wf_counts s HI) as W. unfold counts_ok in W. rewrite !andb_true_iff in W.
+    destruct W as [[_ W] _]. apply bool_decide_eq_true in W. rewrite <- W.
+    unfold EngineWf.sortn. rewrite stdpp.sorting.merge_sort_Permutation. apply (co_num s (inv_count s HI)).
+  - apply (inv_heap s HI).
+  - apply hinv_inv, (inv_heap s HI).
+Qed.
+
+(** ** C05 at operation boundaries of clean histories *)
+Theorem wf_every_boundary_bindfree mh os s :
+  (0 < mh)%nat -> forallb op_nobind os = true -> run_clean (init mh) os = Some s -> wfb s = true.
+Proof. intros Hmh Hn H. apply Inv_wfb. apply (Inv_run_clean_bindfree mh os s Hmh Hn H). Qed.
+
+Theorem wf_every_boundary_cond mh os s :
+  bind_spec (fun _ => True) -> (0 < mh)%nat -> run_clean (init mh) os = Some s -> wfb s = true.
+Proof. intros HB Hmh H. apply Inv_wfb. apply (Inv_run_clean_cond mh os s HB Hmh H). Qed.
+
+(** ** Witnesses *)
+(* an operation rejected for the height limit leaves the state ill-formed (MaxHeight 6) *)
+Definition h_limit : list op :=
+  [NewVar 1 false; NewMap (Aff 1 1) 0%nat; NewMap (Aff 1 1) 1%nat; NewMap (Aff 1 1) 2%nat;
+   NewMap (Aff 1 1) 3%nat; NewMap (Aff 1 1) 4%nat; NewMap (Aff 1 1) 5%nat; Observe 6%nat].
+
+Theorem rejection_refuted : exists os s, run (init 6) os = Ok s /\ wfb s = false.
+Proof.
+  assert (H : match run (init 6) h_limit with Ok s => negb (wfb s) | _ => false end = true) by (vm_compute; reflexivity).
+  destruct (run (init 6) h_limit) as [s| |] eqn:E; try discriminate.
+  exists h_limit, s. split; [exact E|]. destruct (wfb s); [discriminate|reflexivity].
+Qed.
+
+(* why [op_clean] asks for top-level nodes: observing a node of a discarded bind generation *)
+Definition h_scope_leak : list op :=
+  [NewVar 1 false; NewBind [TMap (Aff 1 1) TX] 0%nat; Observe 2%nat; Stabilize [];
+   SetVar 0%nat 2; Stabilize []; Observe 5%nat].
+
+Theorem scope_leak_refuted : exists os s, run_unrejected (init 16) os = Some s /\ wfb s = false.
+Proof.
+  assert (H : match run_unrejected (init 16) h_scope_leak with Some s => negb (wfb s) | None => false end = true) by (vm_compute; reflexivity).
+  destruct (run_unrejected (init 16) h_scope_leak) as [s|] eqn:E; try discriminate.
+  exists h_scope_leak, s. split; [exact E|]. destruct (wfb s); [discriminate|reflexivity].
+Qed.
+
+(* ... and so does a top-level node that reads a scope node (found by local-prover) *)
+Definition h_scope_read : list op :=
+  [NewVar 1 false; NewBind [TMap (Aff 1 0) TX; TMap (Aff 1 1) TX] 0%nat; Observe 2%nat; Stabilize [];
+   NewMapN Sum [4%nat]; Observe 6%nat; Stabilize []; SetVar 0%nat 2; Stabilize []; AddInput 6%nat 0%nat].
+
+Theorem scope_read_refuted : exists os s, run_unrejected (init 256) os = Some s /\ wfb s = false.
+Proof.
+  assert (H : match run_unrejected (init 256) h_scope_read with Some s => negb (wfb s) | None => false end = true) by (vm_compute; reflexivity).
+  destruct (run_unrejected (init 256) h_scope_read) as [s|] eqn:E; try discriminate.
+  exists h_scope_read, s. split; [exact E|]. destruct (wfb s); [discriminate|reflexivity].
+Qed.
+
+(* why [op_clean] asks [AddInput n a] for [a < n]: a cycle declared while unobserved is not detected *)
+Definition h_cycle : list op :=
+  [NewMapN Sum []; NewMapN Sum [0%nat]; AddInput 0%nat 1%nat; Observe 1%nat].
+
+Theorem unobserved_cycle_refuted : exists os s, run_unrejected (init 16) os = Some s /\ wfb s = false.
+Proof.
+  assert (H : match run_unrejected (init 16) h_cycle with Some s => negb (wfb s) | None => false end = true) by (vm_compute; reflexivity).
+  destruct (run_unrejected (init 16) h_cycle) as [s|] eqn:E; try discriminate.
+  exists h_cycle, s. split; [exact E|]. destruct (wfb s); [discriminate|reflexivity].
+Qed.
+
+(* non-vacuity: a clean history with binds (nested, re-run, released) *)
+Definition h_binds : list op :=
+  [NewVar 1 false; NewBind [TMap (Aff 1 1) TX; TBind [TRet 3; TX] (TMap (Aff 2 1) TX)] 0%nat; Observe 2%nat;
+   Stabilize []; SetVar 0%nat 2; Stabilize []; SetVar 0%nat 3; Stabilize []; Unobserve 3%nat].
+
+Theorem clean_history_with_binds : exists s, run_clean (init 16) h_binds = Some s /\ wfb s = true.
+Proof.
+  assert (H : match run_clean (init 16) h_binds with Some s => wfb s | None => false end = true) by (vm_compute; reflexivity).
+  destruct (run_clean (init 16) h_binds) as [s|] eqn:E; try discriminate.
+  exists s. split; [reflexivity|exact H].
+Qed.
+
+Definition h_static : list op :=
+  [NewVar 1 false; NewVar 2 true; NewMap2 (Lin2 1 2 0) 0%nat 1%nat; NewCutoff CParity 2%nat; Observe 3%nat;
+   Stabilize []; SetVar 0%nat 5; Stabilize [(2%nat, WFn, AFail FErr)]; Stabilize []; Unobserve 4%nat].
+
+Theorem clean_bindfree_history : exists s,
+  forallb op_nobind h_static = true /\ run_clean (init 16) h_static = Some s.
+Proof.
+  assert (H : match run_clean (init 16) h_static with Some s => true | None => false end = true) by (vm_compute; reflexivity).
+  destruct (run_clean (init 16) h_static) as [s|] eqn:E; try discriminate.
+  exists s. split; reflexivity.
+Qed.
